@@ -39,6 +39,11 @@ Proof. vm_compute. split; reflexivity. Qed.
 Lemma mopidy_callback_unbounded_lemma : callback_unbounded_b sites = true.
 Proof. vm_compute. reflexivity. Qed.
 
+(* coverage: every textual candidate for a blocking call (token scan) was translated into a
+   blocking site, a Tell, or exempted for one of the three known reasons; none is Missing *)
+Lemma mopidy_candidates_accounted_lemma : candidates_accounted_b candidates sites = true.
+Proof. vm_compute. reflexivity. Qed.
+
 Theorem mopidy_no_deadlock_lemma :
   forall (comp_of : actor -> comp) (code_of : actor -> hid -> list instr),
     (forall a h t h', In (ICall t h') (code_of a h) ->
